@@ -27,7 +27,8 @@ PROP = dict(
                            "monitor:polyline2-lists": 40000, "monitor:polyline2-drawn-points": 150000, "polyline::part::points": 80000,
                            "state:two-point-part-cut-and-trim": 5000, "state:empty-part-with-cut-or-trim": 1000,
                            "monitor:norange-runs": 300, "transform::part (no range)": 600, "monitor:history-steps": 40000,
-                           "cycle::stage::transform": 30000, "polyline::clear": 8000}),
+                           "cycle::stage::transform": 30000, "polyline::clear": 8000, "history:invisible-data-set": 5000,
+                           "history:empty-data-set": 1000, "state:polyline-nothing-visible": 5000}),
               ],
         rule=("case = (a) one class sequence (exhaustive by index) instantiated in 5 scalings, or (b) one PRNG sequence of 1..300 reals "
               "with a PRNG range, or (c) one data set with a run of 65533..65538 points of one kind plus head/tail classes, or several runs "
